@@ -146,8 +146,9 @@ def make_scenario(idx, mode, path, moment, entry, delay=None):
 
 def case_of(sc):
     c = {k: sc[k] for k in ("mode", "path", "moment", "entry", "delay")}
-    if sc.get("backlog"):
-        c["backlog"] = sc["backlog"]
+    for k in ("backlog", "burst", "reuse"):
+        if sc.get(k):
+            c[k] = sc[k]
     return c
 
 
@@ -172,8 +173,23 @@ def gen_scenarios(ctx):
     # not read: the writer task is blocked inside process.stdin.send() when the context is left
     for mode in ("never_reads", "never_reads_ign"):
         for path in PATHS:
-            sc = make_scenario(len(scs), mode, path, "before", rng.choice(ENTRIES))
-            sc["backlog"] = 60
+            for entry in (ENTRIES if mode == "never_reads" else [rng.choice(ENTRIES)]):
+                sc = make_scenario(len(scs), mode, path, "before", entry)
+                sc["backlog"] = 60
+                scs.append(sc)
+    # the cancellation arrives while a burst the application has just sent is still in the outgoing queue
+    for path in PATHS:
+        if path in ("normal", "exception"):
+            continue
+        for entry in ENTRIES:
+            sc = make_scenario(len(scs), "well", path, "before", entry)
+            sc["burst"] = 20
+            scs.append(sc)
+    # the same StdioClient object used for a second conversation
+    for mode in ("well", "ignore_term", "floods"):
+        for path in ("normal", "cancel_scope"):
+            sc = make_scenario(len(scs), mode, path, "before", "StdioClient")
+            sc["reuse"] = True
             scs.append(sc)
     return scs
 
@@ -535,8 +551,9 @@ def replay(ctx, data):
             scs = [s for s in gen_spawn(tmp, 0) if s["spawn"] == case["spawn"] and s["entry"] == case["entry"]]
         else:
             scs = [make_scenario(0, case["mode"], case["path"], case["moment"], case["entry"], case.get("delay") or None)]
-            if case.get("backlog"):
-                scs[0]["backlog"] = case["backlog"]
+            for k in ("backlog", "burst", "reuse"):
+                if case.get(k):
+                    scs[0][k] = case[k]
         fails = 0
         for attempt in range(2):
             res = run_workers(scs, 1)
